@@ -5,7 +5,7 @@
 set -u
 to="${1:-2400}"
 tmp=$(mktemp -d /tmp/indpipe.XXXXXX)
-cp /verif/spec/Pipeline.tla /verif/spec/MCPipeline.tla /verif/spec/IndPipe.tla "$tmp/"
+cp /verif/spec/Pipeline.tla /verif/spec/MCPipeline.tla /verif/spec/apalache/IndPipe.tla "$tmp/"
 cd "$tmp"
 for job in "base --init=MCInit --inv=IndInv --length=0" "safe --init=IndInit --inv=Safe --length=0" "step --init=IndInit --inv=IndInv --length=1"; do
   name=${job%% *}; args=${job#* }
